@@ -547,7 +547,10 @@ def _worker_a(shard):
     if kind == "time":
         vals = payload
         col = pa.array(vals, type=pa.time64("us"))
-        sf, rows = decode(pa.table({"C0": col}), ["TIME"])
+        try:
+            sf, rows = decode(pa.table({"C0": col}), ["TIME"])
+        except Exception as e:
+            return {"bad": [f"to_sf raised {type(e).__name__} on a TIME column: {str(e)[:120]}"], "n": 0, "wire": []}
         ns = sf.column(0).to_pylist()
         exp = col.to_pylist()
         for v, r, x in zip(vals, rows, exp):
@@ -560,9 +563,14 @@ def _worker_a(shard):
         out = []
         for tz, xs in cols:
             col = pa.array(xs, type=pa.timestamp("us", tz="UTC") if tz else pa.timestamp("us"))
-            _, rows = decode(pa.table({"C0": col}), ["TIMESTAMP WITH TIME ZONE" if tz else "TIMESTAMP"]) if len(xs) else (None, [])
+            try:
+                _, rows = decode(pa.table({"C0": col}), ["TIMESTAMP WITH TIME ZONE" if tz else "TIMESTAMP"]) if len(xs) else (None, [])
+            except Exception as e:
+                bad.append(f"to_sf raised {type(e).__name__} on the timestamp column {xs} ({'TZ' if tz else 'NTZ'}): {str(e)[:120]}")
+                out.append([["ERR", None]] * len(xs))
+                continue
             out.append([None if r[0] is None else _canon(r[0])[1] for r in rows])
-        return {"bad": [], "n": len(cols), "wire": out}
+        return {"bad": bad[:3], "n": len(cols), "wire": out}
     if kind == "oldfloat":
         lo, hi = payload
         us = np.arange(lo, hi, dtype="int64")
@@ -622,7 +630,8 @@ def _run_a(chk, rnd, thorough: bool):
     for (kind, payload), r in zip(shards, res):
         for b in r["bad"]:
             us_case = {"part": "A", "kind": kind, "payload": [payload[0], payload[1], payload[2], payload[3]] if kind == "ts" else None, "detail": b}
-            chk.violation(b, us_case, broken="C17_ts_roundtrip/C17_ts_wire_ranges (real arrow.py vs closed form)" if kind == "ts" else "C17_time_roundtrip")
+            chk.violation(b, us_case, broken={"ts": "C17_ts_roundtrip/C17_ts_wire_ranges (real arrow.py vs closed form)", "time": "C17_time_roundtrip",
+                                               "nullcol": "C17_ts_roundtrip/C17_null_roundtrip (to_sf raises)"}.get(kind, "C17 part A"))
         if kind == "ts":
             chk.evaluations += r["n"]
             chk.count(f"ts:{'tz' if payload[3] else 'ntz'}:{'pre1970' if payload[0] < 0 else 'post1970'}", r["n"])
